@@ -58,6 +58,7 @@ func init() {
 		}
 		return bz
 	})
+	chainProbes["q_dispatch_old"] = chainProbes["q_dispatch"] // the same query with an older height (own name: own signature)
 	chainProbes["q_store"] = func(r *replica, p Probe) string {
 		rel, _ := strconv.ParseInt(p.Args["height"], 10, 64)
 		h := r.height + rel
@@ -353,7 +354,12 @@ func init() {
 			senv := claimsEnv()
 			smenu := []BlockSpec{{}, {Absent: []string{"N1"}}, blk(tx("claim", "N1", "session", "cur-1")), blk(tx("claim", "N2", "session", "cur-1")),
 				blk(tx("node_stake", "N2", "node", "N2", "value", "2000000", "output", "N2", "chains", "0002"))}
+			// governance changes the number of session seats in the middle of a session
+			smenu = append(smenu, blk(tx("gov_param", "G", "from", "G", "key", "pocketcore/SessionNodeCount", "value", `"1"`)))
 			dq := []Probe{{Kind: "q_dispatch", Args: map[string]string{"height": "0"}}}
+			// the same query with an older height (own, smaller exploration)
+			dqOld := []Probe{{Kind: "q_dispatch_old", Args: map[string]string{"height": "-1"}}, {Kind: "q_dispatch_old", Args: map[string]string{"height": "-2"}}}
+			chainDiffExplore(c, &chainDiffCfg{Name: "readonly-dispatch-query-older-height", Env: senv, Menu: []BlockSpec{smenu[0], smenu[2], smenu[3], smenu[4]}, Depth: 4, Probes: dqOld, Phases: []string{"pre", "post"}, MaxIns: 1})
 			chainDiffExplore(c, &chainDiffCfg{Name: "readonly-dispatch-query", Env: senv, Menu: smenu, Depth: 4, Probes: dq, Phases: []string{"pre", "post"}, MaxIns: 1})
 			senv1 := senv
 			senv1.SessionNodeCount = 1
@@ -406,6 +412,9 @@ func init() {
 			icfg := &chainDiffCfg{Name: "offchain-inblock", Env: defaultEnv(), Menu: imenu, Depth: 2, Probes: iprobes, Phases: []string{"pre", "tx0", "mid", "post"}, MaxIns: 1}
 			chainDiffExplore(c, icfg)
 			sprobes := []Probe{{Kind: "dispatch", Args: map[string]string{"app": "P1", "chain": "0001"}}, {Kind: "relay", Args: map[string]string{"entropy": "5"}}}
+			// governance changes the number of session seats in the middle of a session (two seats -> one)
+			seatMenu := append(append([]BlockSpec{}, smenu[:4]...), blk(tx("gov_param", "G", "from", "G", "key", "pocketcore/SessionNodeCount", "value", `"1"`)))
+			chainDiffExplore(c, &chainDiffCfg{Name: "offchain-sessions-seat-change", Env: env, Menu: seatMenu, Depth: 4, Probes: sprobes[:1], Phases: []string{"pre", "post"}, MaxIns: 1})
 			scfg := &chainDiffCfg{Name: "offchain-sessions", Env: env, Menu: smenu, Depth: 4, Probes: sprobes, Phases: []string{"pre", "post"}, MaxIns: 1}
 			chainDiffExplore(c, scfg)
 			// one session seat for two eligible nodes: who may claim depends on the session key, so a session that claim
